@@ -19,6 +19,8 @@ FAMS = [
                   {"exec": "asyncio", "faulty": True, "cancels": True,
                    "cancel_kinds": ["scope", "deadline"], **OPTS},
                   [oracles.WaiterObserver], [_posts]),
+    PoolMixFamily("C07", "progress-trio", 1200, 20000,
+                  {"exec": "trio", "cancels": True, **OPTS}, [], [_posts]),
     PoolMixFamily("C07", "progress-threads", 800, 15000,
                   {"exec": "threads", **OPTS, "max_callers": 4, "protos": ["h1"]},
                   [oracles.WaiterObserver], [_posts]),
